@@ -262,6 +262,7 @@ type modelQuery struct {
 	err    string
 	timeout int
 	light  bool // draw candidate inputs from the hypothesis-reduced query (validated by the replay itself)
+	deadline time.Time
 }
 
 // get asks the solver for values of terms under the obligation's negation + pins.
@@ -276,6 +277,10 @@ func (q *modelQuery) get(terms []string) bool {
 		return true
 	}
 	q.rounds++
+	if q.rounds > 60 || (!q.deadline.IsZero() && time.Now().After(q.deadline)) {
+		q.err = "model reconstruction budget exhausted"
+		return false
+	}
 	text := q.o.smtTextS(q.pins, q.light) + "(get-value (" + strings.Join(need, " ") + "))\n"
 	dir, _ := os.MkdirTemp("", "govc-model")
 	defer os.RemoveAll(dir)
@@ -909,7 +914,10 @@ func replayFailure(cfg *runConfig, r *OblResult) (path string, confirmed bool, n
 func tryReplay(cfg *runConfig, o *Obligation, rec *replayRecord, light bool) (bool, string) {
 	g := o.Gen
 	fn := g.fn
-	q := &modelQuery{o: o, vals: map[string]*sexp{}, timeout: cfg.timeout, light: light}
+	if g.pa {
+		return false, "PA-level function: the model is over an abstraction (havoc'd calls); only a registered scenario can replay it"
+	}
+	q := &modelQuery{o: o, vals: map[string]*sexp{}, timeout: 10, light: light, deadline: time.Now().Add(90 * time.Second)}
 	pkg := fn.Pkg.Pkg
 	rb := &rebuilder{q: q, g: g, st: g.entry, imports: map[string]bool{}}
 	rb.qual = func(p *types.Package) string {
@@ -930,7 +938,7 @@ func tryReplay(cfg *runConfig, o *Obligation, rec *replayRecord, light bool) (bo
 			for _, t := range sizeTerms {
 				hints = append(hints, fmt.Sprintf("(<= %s %d)", t, k))
 			}
-			q2 := &modelQuery{o: o, vals: map[string]*sexp{}, timeout: cfg.timeout, pins: hints, light: light}
+			q2 := &modelQuery{o: o, vals: map[string]*sexp{}, timeout: 10, pins: hints, light: light, deadline: q.deadline}
 			if q2.get([]string{sizeTerms[0]}) {
 				*q = *q2
 				break
